@@ -764,6 +764,10 @@ func (tms *TileMatrixSet) MatrixBoundingBox(tmID TMID) (bottomLeft geom.Point, t
 		return bottomLeft, topRight, fmt.Errorf(`tile matrix with id %v not found`, tmID)
 	}
 
+	if len(tm.VariableMatrixWidths) != 0 {
+		// MatrixSize panics for these; callers validating a tile matrix set need an error
+		return bottomLeft, topRight, fmt.Errorf(`variable matrix widths are not supported (tile matrix %v)`, tmID)
+	}
 	gridWidth, gridHeight := tms.MatrixSize(tmID)
 	pointOfOriginXY, err := ToXYPoint(tms, *tm.PointOfOrigin)
 	if err != nil {
